@@ -144,7 +144,7 @@ static const char* const SEGS[] = {"C:", "c%7C", "URL:x", "file:", "%00", ".git"
     "A", "%2e%2e", ".%2E", "c%2Fd", "%2F", "a%20b", "c", "d", "%61", "a:", ":a", "%C3%A4", "%c3%a4", "-", "_", "a+b", "a,b", "!$&'()*+,;=",
     // names and adjacent pairs that real-world special cases key on
     "index.html", "index.htm", "robots.txt", ".well-known", "cgi-bin", "favicon.ico", "..;", "..;x", ";", ";v=1", "~~", "....", "a..b", "..a", "a..", "%2e.", "%25", "%2525", "%252e", "%252E%252E", "::", "a::", "=", "&", "a=b&c=d", "+", "*", "%7euser", "%7Euser",
-    "localhost", "www", "80", "443", "C%3A", "c|", "%5C", "%00x", "x%00", "%FF", "%ff", "%80", "%7F", "%7f", "%20", "%0D%0A", "%0a"};
+    "localhost", "www", "80", "443", "C%3A", "c%7C", "%5C", "%00x", "x%00", "%FF", "%ff", "%80", "%7F", "%7f", "%20", "%0D%0A", "%0a"};
 static const char* const DOTSEGS[] = {"", ".", "..", "a", "b", "b:c", "", ".", "..", "%41", ":", "c", "..", ".", "x:"};
 static const char* const QUERIES[] = {"", "q", "a=b&c=d", "/?", "%41%3a%2f", "q?x/y", "%7e", "%7E", "a%20b", "x=%c3%a4", ":@", "?", "a+b", "a=1&a=2", "&", "=", "&&", "a=&b", "%26=%3D", "q=%2525", "..", "../x", "a=b;c=d", "%0D%0A"};
 #define PICK(arr, rng) Str(arr[(rng).below((uint32_t)(sizeof(arr) / sizeof(arr[0])))])
